@@ -22,6 +22,16 @@ unsigned gh_at_n; int gh_at_last_ord; int gh_at_last_op;    /* log: number of at
 #define TM_BUSY_LOC (&gh_mt->_busy._M_base._M_i)
 #define TM_CAP_MAX ((1ul << 30) + 64)
 
+/* memory-order obligations belong to property C03: compiled in only for the C03 run of these units */
+#ifdef CV_CHECK_C03
+#define C03_ASSERT(c, msg) __CPROVER_assert(c, msg)
+#else
+#define C03_ASSERT(c, msg)
+#endif
+#define C19_HAS_REL(o) ((o) == 3 || (o) == 4 || (o) == 5)
+#define C19_HAS_ACQ(o) ((o) == 1 || (o) == 2 || (o) == 4 || (o) == 5)
+/* plain accesses to the block bookkeeping (perm instrumentation, C03): only the holder of the block may look at _ptr/_capacity */
+#define CV_PERM_RS_BLOCK(obj) C03_ASSERT(gh_tok_block, "C03: reusable_storage_mtsafe: _ptr/_capacity accessed without holding the block (another thread may be replacing it in alloc(): data race)")
 static void cv_env_other_threads(void) {                      /* rely step */
   if (gh_tok_block) return;                                   /* I hold BLOCK: nobody interferes */
   RS *r = (RS *)gh_mt;
@@ -43,12 +53,13 @@ cv_i8 cv_atomic_xchg_i8(cv_i8 *p, cv_i8 v, int ord) {
   __CPROVER_assert(v == 1, "protocol (guarantee): the busy flag is only ever exchanged with true");
   gh_seen_busy = old; gh_lin_ptr = ((RS *)gh_mt)->_ptr; gh_lin_cap = ((RS *)gh_mt)->_capacity;
   gh_lin_byte = (gh_lin_ptr != 0 && gh_G < gh_lin_cap) ? gh_lin_ptr[gh_G] : 0;
-  if (old == 0) gh_tok_block = 1;                             /* acquired */
+  if (old == 0) { C03_ASSERT(C19_HAS_ACQ(ord), "C03: acquiring the reusable block (busy false->true) needs acquire semantics: block pointer, capacity and the bytes of the previous frame were written by the previous holder"); gh_tok_block = 1; }   /* acquired */
   return old; }
 void cv_atomic_store_i8(cv_i8 *p, cv_i8 v, int ord) {
   gh_at_n++; gh_at_last_ord = ord; gh_at_last_op = 2;
   __CPROVER_assert(p == TM_BUSY_LOC, "protocol: the only atomic location is the storage's busy flag");
   __CPROVER_assert(v == 0 && gh_tok_block, "protocol (guarantee): the busy flag is only ever stored false, and only by the holder of the own block");
+  C03_ASSERT(C19_HAS_REL(ord), "C03: releasing the reusable block (busy := false) needs release semantics: it publishes the block bookkeeping and the frame's bytes to the next holder");
   *p = v; gh_tok_block = 0; }
 cv_i8 cv_atomic_load_i8(cv_i8 *p, int ord) {
   gh_at_n++; gh_at_last_ord = ord; gh_at_last_op = 1;
